@@ -292,7 +292,11 @@ func Adopt(hint string) {
 		return
 	}
 	if s.current() == nil {
-		s.adopt(hint)
+		t := s.adopt(hint)
+		// A goroutine started by un-instrumented code (net/http's per-connection
+		// goroutine) runs concurrently with whoever started it until it gets here:
+		// from now on it is an ordinary task that only runs when scheduled.
+		s.park(t, "adopted")
 	}
 }
 
